@@ -363,13 +363,20 @@ fn transform_case(rng: &mut Rng, out: &mut CaseOut, max_log: usize) {
         }
     }
     let input = buf.clone();
+    // a quarter of the small cases: shards at an unaligned address
+    let off = if !big && rng.chance(1, 4) { *rng.pick(&[1usize, 8, 17, 33, 63]) } else { 0 };
     {
         let e = codec::dyn_engine(eng);
-        let mut data = ShardsRefMut::new(shard_count, 1, &mut buf);
+        let mut m = crate::mon_c03::Misaligned::from_blocks(if off != 0 { &input } else { &input[..0] }, off);
+        let storage: &mut [[u8; 64]] = if off != 0 { m.blocks_mut() } else { &mut buf };
+        let mut data = ShardsRefMut::new(shard_count, 1, storage);
         if inverse {
             e.ifft(&mut data, pos, size, truncated, skew_delta);
         } else {
             e.fft(&mut data, pos, size, truncated, skew_delta);
+        }
+        if off != 0 {
+            buf.copy_from_slice(m.blocks());
         }
     }
     let mut cache: Vec<Option<[u16; 16]>> = vec![None; 65536];
